@@ -7,7 +7,8 @@
 (*                           (changes relabelled by object-id rank);       *)
 (*   gid                     records with the same gid use the same commits*)
 (*   refs                    the changes the references pointed at;         *)
-(*   view                    [log, lww, hist, tips] observed;               *)
+(*   view                    [log, comments, lww, labels, hist, tips]      *)
+(*                           observed (log = the thread timeline);          *)
 (*   clean (optional)        the view observed after pointing the           *)
 (*                           references at the tips of `view.hist` (the     *)
 (*                           history with the dropped changes removed).     *)
@@ -27,7 +28,8 @@ GraphOf(r) ==
      cls   |-> [c \in 1..r.m |-> r.cls[c]],
      tgt   |-> [c \in 1..r.m |-> r.tgt[c]]]
 
-ViewRec(v) == [log |-> v.log, lww |-> v.lww, hist |-> ToSet(v.hist), tips |-> ToSet(v.tips)]
+RecView(v) == [log |-> v.log, comments |-> v.comments, lww |-> v.lww, labels |-> v.labels,
+               hist |-> ToSet(v.hist), tips |-> ToSet(v.tips)]
 LoadedOf(r) == Restrict(GraphOf(r), Closure(GraphOf(r), ToSet(r.refs)))
 
 Empty == [nodes |-> {}, deps |-> <<>>, ts |-> <<>>, cls |-> <<>>, tgt |-> <<>>]
@@ -43,7 +45,7 @@ TNext ==
     /\ l <= Len(Rec)
     /\ l' = l + 1
     /\ store' = LoadedOf(Rec[l])
-    /\ result' = ViewRec(Rec[l].view)
+    /\ result' = RecView(Rec[l].view)
     /\ UNCHANGED <<refs, pc, stack, seen, edges, graph, queue, obj>>
 
 TSpec == TInit /\ [][TNext]_tvars
@@ -61,14 +63,14 @@ AnswerAllowed == l > 1 => IF Root \in store.nodes THEN Allowed(store, result) EL
 SameClosureSameView ==
     l > 1 => \A j \in 1..(l - 2) :
         (j >= l - 8 /\ Rec[j].gid = Cur.gid /\ LoadedOf(Rec[j]).nodes = store.nodes)
-            => ViewRec(Rec[j].view) = result
+            => RecView(Rec[j].view) = result
 
 \* ... and is identical to the view of the cleaned history (C06).
 CleanedHistorySameView ==
-    (l > 1 /\ "clean" \in DOMAIN Cur) => ViewRec(Cur.clean) = result
+    (l > 1 /\ "clean" \in DOMAIN Cur) => RecView(Cur.clean) = result
 
 \* Informational (separate configuration): the implementation follows the transcribed algorithm.
-AnswerIsAlg == l > 1 => IF Root \in store.nodes THEN result = View(store) ELSE NoObject(result)
+AnswerIsAlg == l > 1 => IF Root \in store.nodes THEN result = Observable(View(store)) ELSE NoObject(result)
 
 Accepted ==
     IF TLCGet("stats").diameter - 1 = Len(Rec)
